@@ -132,7 +132,7 @@ SLOTS = [
 
 
 def _sharded(jobs, harness, base, var="a", weight=1, spec=None):
-    for name, extra in shard_extras(var):
+    for name, extra in shard_extras(var, exclude=(spec or {}).get(var, {}).get("exclude", "")):
         p = dict(base)
         sp = {k: dict(v) for k, v in (spec or {}).items()}
         sp[var] = dict(sp.get(var, {}), extra=extra)
